@@ -371,3 +371,25 @@ def copy_owns(ctx: Ctx, rule: str, cls_qualname: str, ops: tuple[str, ...], floo
                '' if ok else f'`{a}` is shared between a component and its copies: {sorted(set(where))[0]}() applied to the copy silently changes the original '
                f'(e.g. the wildcard of a global attribute group narrowed by one complex type also narrows every other user)',
                key=f'{cls_qualname}.__copy__|owns|{a}')
+
+
+def reach_cut(g: CFG, starts, cut, avoid=(), kinds: str = 'nTF') -> set:
+    """nodes reachable from ``starts`` without crossing an edge of ``cut`` ({(node, label)}) and without entering ``avoid``."""
+    avoid = set(avoid)
+    cut = set(cut)
+    seen, stack = set(), [s for s in starts if s not in avoid]
+    while stack:
+        x = stack.pop()
+        if x in seen:
+            continue
+        seen.add(x)
+        for m, lab in g.succ[x]:
+            if lab in kinds and (x, lab) not in cut and m not in avoid and m not in seen:
+                stack.append(m)
+    return seen
+
+
+def iteration_requires(g: CFG, head: Node, node: Node, edges) -> bool:
+    """Within one iteration of the loop at ``head``: does every path from the start of the body to ``node`` cross one of ``edges``?"""
+    starts = [m for m, lab in g.succ[head] if lab == 'T']
+    return bool(edges) and node not in reach_cut(g, starts, edges, avoid=[head])
